@@ -15,6 +15,7 @@
 #include <cstdlib>
 #include <limits>
 #include <ostream>
+#include <ratio>
 
 #include "opentelemetry/nostd/string_view.h"
 #include "opentelemetry/sdk/common/global_log_handler.h"
@@ -87,9 +88,30 @@ bool GetBoolEnvironmentVariable(const char *env_var_name, bool &value)
   return true;
 }
 
+// Converts count units of SourceDuration to system_clock::duration.
+// Returns false, leaving value untouched, when the result is not representable.
+template <typename SourceDuration>
+static bool ConvertTimeout(std::chrono::system_clock::duration::rep count,
+                           std::chrono::system_clock::duration &value)
+{
+  using TargetDuration = std::chrono::system_clock::duration;
+  using Ratio = std::ratio_divide<typename SourceDuration::period, TargetDuration::period>;
+
+  if (Ratio::num > 1 && count > (std::numeric_limits<TargetDuration::rep>::max)() / Ratio::num)
+  {
+    return false;
+  }
+
+  value = std::chrono::duration_cast<TargetDuration>(
+      SourceDuration{static_cast<typename SourceDuration::rep>(count)});
+  return true;
+}
+
 static bool GetTimeoutFromString(const char *input, std::chrono::system_clock::duration &value)
 {
-  std::chrono::system_clock::duration::rep result = 0;
+  using Rep = std::chrono::system_clock::duration::rep;
+
+  Rep result = 0;
 
   // Skip spaces
   for (; *input && std::isspace(*input); ++input)
@@ -97,7 +119,14 @@ static bool GetTimeoutFromString(const char *input, std::chrono::system_clock::d
 
   for (; *input && std::isdigit(*input); ++input)
   {
-    result = result * 10 + (*input - '0');
+    constexpr Rep kMax = (std::numeric_limits<Rep>::max)();
+    const Rep digit    = *input - '0';
+    if (result > kMax / 10 || (result == kMax / 10 && digit > kMax % 10))
+    {
+      // Rejecting a value that does not fit instead of overflowing.
+      return false;
+    }
+    result = result * 10 + digit;
   }
 
   if (result == 0)
@@ -110,44 +139,32 @@ static bool GetTimeoutFromString(const char *input, std::chrono::system_clock::d
 
   if (unit == "ns")
   {
-    value = std::chrono::duration_cast<std::chrono::system_clock::duration>(
-        std::chrono::nanoseconds{result});
-    return true;
+    return ConvertTimeout<std::chrono::nanoseconds>(result, value);
   }
 
   if (unit == "us")
   {
-    value = std::chrono::duration_cast<std::chrono::system_clock::duration>(
-        std::chrono::microseconds{result});
-    return true;
+    return ConvertTimeout<std::chrono::microseconds>(result, value);
   }
 
   if (unit == "ms")
   {
-    value = std::chrono::duration_cast<std::chrono::system_clock::duration>(
-        std::chrono::milliseconds{result});
-    return true;
+    return ConvertTimeout<std::chrono::milliseconds>(result, value);
   }
 
   if (unit == "s")
   {
-    value = std::chrono::duration_cast<std::chrono::system_clock::duration>(
-        std::chrono::seconds{result});
-    return true;
+    return ConvertTimeout<std::chrono::seconds>(result, value);
   }
 
   if (unit == "m")
   {
-    value = std::chrono::duration_cast<std::chrono::system_clock::duration>(
-        std::chrono::minutes{result});
-    return true;
+    return ConvertTimeout<std::chrono::minutes>(result, value);
   }
 
   if (unit == "h")
   {
-    value =
-        std::chrono::duration_cast<std::chrono::system_clock::duration>(std::chrono::hours{result});
-    return true;
+    return ConvertTimeout<std::chrono::hours>(result, value);
   }
 
   if (unit == "")
@@ -155,9 +172,7 @@ static bool GetTimeoutFromString(const char *input, std::chrono::system_clock::d
     // TODO: The spec says milliseconds, but opentelemetry-cpp implemented
     // seconds by default. Fixing this is a breaking change.
 
-    value = std::chrono::duration_cast<std::chrono::system_clock::duration>(
-        std::chrono::seconds{result});
-    return true;
+    return ConvertTimeout<std::chrono::seconds>(result, value);
   }
 
   // Failed to parse the input string.
